@@ -20,6 +20,13 @@ struct Slice {
   ElementType& operator[](ptrdiff_t idx) const { return storage_[idx]; }
   ElementType* begin() const { return storage_; }
   ElementType* end() const { return storage_ + size_; }
+  std::vector<uint8_t> asVector() const {
+    std::vector<uint8_t> r;
+    r.reserve(size_);
+    for (size_t i = 0; i < size_; i++) r.d_[i] = (uint8_t)storage_[i];
+    r.n_ = size_;
+    return r;
+  }
   std::vector<uint8_t> reverse() const {
     std::vector<uint8_t> r;
     r.reserve(size_);   // (capacity obligation once, then plain stores)
